@@ -118,14 +118,16 @@ XalanEXSLTFunctionAlign::execute(
             {
                 const XalanDOMString&   theAlignmentString = args[2]->str(executionContext);
 
-                if (equals(
+                if (theAlignmentString.length() == sizeof(s_centerString) / sizeof(s_centerString[0]) - 1 &&
+                    equals(
                             s_centerString,
                             theAlignmentString.c_str(),
                             sizeof(s_centerString) / sizeof(s_centerString[0]) - 1) == true)
                 {
                     theAlignment = eCenter;
                 }
-                else if (equals(
+                else if (theAlignmentString.length() == sizeof(s_rightString) / sizeof(s_rightString[0]) - 1 &&
+                         equals(
                             s_rightString,
                             theAlignmentString.c_str(),
                             sizeof(s_rightString) / sizeof(s_rightString[0]) - 1) == true)
